@@ -76,6 +76,7 @@ class DetSched:
         self.cs_count = 0           # number of critical sections completed so far (lock order)
         self.prefix = list(prefix)
         self.chooser = chooser
+        self.lenient = False
         self.schedule = []          # thread chosen at each step
         self.choices = []           # enabled threads at each step
 
@@ -93,8 +94,10 @@ class DetSched:
         if k < len(self.prefix):
             t = self.prefix[k]
             if t not in en:
-                self.anomalies.append("schedule names finished thread %d at step %d" % (t, k))
-                return None
+                if not self.lenient:
+                    self.anomalies.append("schedule names finished thread %d at step %d" % (t, k))
+                    return None
+                t = self.chooser(en)    # replaying a schedule recorded on a different tree
         else:
             t = self.chooser(en)
         self.choices.append(en)
@@ -375,11 +378,12 @@ def do_op(chan, stub, sched, op):
 class Run:
     """One execution of thread programs on fresh real objects under a schedule prefix."""
 
-    def __init__(self, classes, init, progs, prefix, chooser):
+    def __init__(self, classes, init, progs, prefix, chooser, lenient=False):
         TChan, StubTransport = classes
         act, w, p, buf, th = init
         n = len(progs)
         self.sched = sched = DetSched(n, prefix, chooser)
+        sched.lenient = lenient
         self.stub = stub = StubTransport(sched)
         self.chan = chan = TChan(CHANID)
         chan._set_transport(stub)
@@ -479,10 +483,10 @@ class Run:
         return wire, out
 
 
-def execute(classes, init, progs, prefix, chooser):
+def execute(classes, init, progs, prefix, chooser, lenient=False):
     """Run to completion: follow `prefix`, then let `chooser(enabled)` pick.
     Returns (schedule, enabled sets per step, run)."""
-    run = Run(classes, init, progs, prefix, chooser)
+    run = Run(classes, init, progs, prefix, chooser, lenient)
     run.go()
     return list(run.sched.schedule), list(run.sched.choices), run
 
@@ -705,8 +709,8 @@ def run(ctx):
     ctx.prove()
     classes = make_classes()
 
-    budget = 60000 if ctx.thorough else 6000
-    cap_fixed = 6000 if ctx.thorough else 1000
+    budget = 50000 if ctx.thorough else 4500
+    cap_fixed = 6000 if ctx.thorough else 800
     cap_rand = 1500 if ctx.thorough else 250
     set_cases = []      # (init, progs, cap, expected)
     walk_cases = []     # (init, progs, schedule, outcome)
@@ -806,7 +810,11 @@ def replay(ctx, rep):
     init = (bool(init[0]),) + init[1:]
     schedule = list(case["schedule"])
     for _ in range(2):
-        taken, _, r = execute(classes, init, progs, schedule, lambda en: en[0])
+        taken, _, r = execute(classes, init, progs, schedule, lambda en: en[0], lenient=True)
+        if r.sched.anomalies or r.sched.hung or r.errors:
+            ctx.disagree("replayed schedule could not be executed", case=case,
+                         impl={"anomalies": r.sched.anomalies, "errors": r.errors[:2]})
+            return
         wire, out = r.outcome()
         ctx.count(("replay", init, progs, tuple(taken)), kind="replay")
         oracle(ctx, init, progs, taken, r, wire)
